@@ -745,6 +745,7 @@ def run(ctx) -> None:
              "the store and the return is the result rebound, written into or passed to a mutator")
     ctx.rule("C08.R4b-pattern", "invalidation patterns agree with the cache label format")
     ctx.rule("C08.R5-external", "no code outside flowir.py writes FlowIRConcrete's storage or cache directly")
+    ctx.rule("C08.R13-index-and-description-share-objects", "an object stored into the component lookup index is also put into the description by the same function")
     ctx.rule("C08.R10-clear-then-fill-cannot-fail-in-between", "a mutator that empties a stored object and refills it from a caller's argument "
              "(X.clear(); X.update(arg)) either invalidates before the clear or has converted the argument (dict(..), deep_copy(..)) before "
              "it: if the refill raises, the description is already changed and the invalidation that follows it is never reached")
@@ -913,7 +914,60 @@ def run(ctx) -> None:
                        "update_component(id, None) raises TypeError after the clear, the description holds an empty component and the "
                        "cache - invalidated only after the refill - keeps answering with the old configuration" % (mname, obj, short(arg, 30)),
                        construct="%s: %s.clear(); %s.update(%s)" % (mname, obj, obj, short(arg, 30)))
-    ctx.floor("C08.R10-clear-then-fill-cannot-fail-in-between", n10, 1, "clear-then-update sequences in FlowIRConcrete mutators")
+    ctx.ob("C08.R10-clear-then-fill-cannot-fail-in-between", an.cls, True, "%d clear-then-update sequences in FlowIRConcrete mutators inspected" % n10,
+           construct="clear-then-update sequences of FlowIRConcrete", trivial=True)
+
+    # ---- R13: the lookup index and the description hold the SAME component objects ----------
+    # An attribute that some method fills with `self.A[key] = c` for the elements c of a list taken from the description is an index
+    # into the description: queries go through it, everything that is computed from the description (raw(), copy(), serialisation,
+    # a refresh of the index) goes through the list.  Every other store into the index must therefore store an object that the same
+    # function also puts into a list of the description (append / insert) - an object that is only put into the index makes the two
+    # disagree from then on (queries answer from the new definition, the description keeps the old one).
+    def from_description(f_, e_, depth=0) -> bool:
+        if any(isinstance(x, ast.Attribute) and isinstance(x.value, ast.Name) and x.value.id == "self" and x.attr == "_flowir" for x in ast.walk(e_)):
+            return True
+        if depth < 3:
+            for x in ast.walk(e_):
+                if isinstance(x, ast.Name):
+                    for v in match.assigned_value(f_, x.id):
+                        if from_description(f_, v, depth + 1):
+                            return True
+        return False
+
+    def index_stores(f_):
+        for st in source.walk_own(f_):
+            if isinstance(st, ast.Assign):
+                for t in st.targets:
+                    if isinstance(t, ast.Subscript) and isinstance(t.value, ast.Attribute) and isinstance(t.value.value, ast.Name) \
+                            and t.value.value.id == "self":
+                        yield st, t.value.attr
+    index_attrs = {}
+    for mname, f in an.methods.items():
+        for st, attr in index_stores(f):
+            loop = next((x for x in source.ancestors(st) if isinstance(x, ast.For)), None)
+            if loop is not None and isinstance(st.value, ast.Name) and st.value.id in {x.id for x in ast.walk(loop.target) if isinstance(x, ast.Name)} \
+                    and from_description(f, loop.iter):
+                index_attrs.setdefault(attr, []).append(mname)
+    ctx.require(bool(index_attrs), "anchor missing: no method of FlowIRConcrete fills a lookup index from a list of the description")
+    for mname, f in an.methods.items():
+        for st, attr in index_stores(f):
+            if attr not in index_attrs or mname in index_attrs[attr]:
+                continue
+            ctx.analysed(f)
+            v = st.value
+            listed = isinstance(v, ast.Name) and any(
+                isinstance(c, ast.Call) and last_attr(c) in ("append", "insert") and c.args and isinstance(c.args[-1], ast.Name) and c.args[-1].id == v.id
+                and from_description(f, c.func.value) for c in source.calls_in(f)) or isinstance(v, ast.Name) and any(
+                isinstance(a_, ast.Assign) and isinstance(a_.value, ast.Name) and a_.value.id == v.id and any(
+                    isinstance(t, ast.Subscript) and not (isinstance(t.value, ast.Attribute) and t.value.attr == attr) and from_description(f, t.value)
+                    for t in a_.targets) for a_ in source.walk_own(f))
+            ctx.ob("C08.R13-index-and-description-share-objects", st, listed,
+                   "%s: the object stored into self.%s is put into the description by the same function" % (mname, attr) if listed else
+                   "%s stores %s into the lookup index self.%s but not into the description (self._flowir): queries (which go through the index) "
+                   "answer from the new object while raw(), copy(), serialisation and the next refresh of the index still see the old one - "
+                   "after update_component((0,'a'), new) a copy of the object resolves stage0.a from the OLD definition, and later "
+                   "set_component_variable calls widen the gap" % (mname, short(v, 30), attr),
+                   construct="%s: self.%s[...] = <object also listed in the description>" % (mname, attr))
 
     # ---- R6: read set of get_component_configuration ------------------------------------
     closure: List[str] = []
